@@ -121,7 +121,8 @@ def lru_cache(
     def wrapped(*args, cache_insert_: bool = False, **kwargs):
       is_settable = lambda x: x[0] in settable_kwargs
       hashed, settables = mit.partition(is_settable, kwargs.items())
-      key = hash(tuple(itt.chain(args, hashed)))
+      # Keyed by the arguments themselves: different arguments can hash alike.
+      key = tuple(itt.chain(args, hashed))
       if not cache_insert_ and key in cache_:
         result = cache_[key]
       else:
